@@ -13,6 +13,36 @@ func init() {
 		Rules: []func(*Prog, *Result){ruleC01Kind, ruleC01Map, ruleC01List, ruleC01Match, ruleDeepClone},
 	})
 	register(PropSpec{
+		ID:    "C15",
+		Title: "bkld round trip: base + bkld(base, target) evaluates to target",
+		Rules: []func(*Prog, *Result){ruleC15Table, ruleC15Seq, ruleC15Compose, ruleC15Dir, ruleMarkerVocabulary("C15.vocab", map[string][]string{"cmd/bkld": {"$delete", "$replace", "$match"}})},
+	})
+	register(PropSpec{
+		ID:    "C16",
+		Title: "bkli yields the maximal common base, and the migrate workflow is lossless",
+		Rules: []func(*Prog, *Result){ruleC16Table, ruleC16Fold, ruleMarkerVocabulary("C16.marker", map[string][]string{"cmd/bkli": {"$required"}}), ruleValidate("C16")},
+	})
+	register(PropSpec{
+		ID:    "C17",
+		Title: "bklr keeps exactly the $required skeleton and agrees with bkl on what is missing",
+		Rules: []func(*Prog, *Result){ruleC17Table, ruleMarkerVocabulary("C17.marker", map[string][]string{"cmd/bklr": {"$required"}}), ruleValidate("C17")},
+	})
+	register(PropSpec{
+		ID:    "C06",
+		Title: "Plain data passes through unchanged; $$ escapes any literal dollar",
+		Rules: []func(*Prog, *Result){ruleFinalize, ruleOutputGate("C06"), ruleValidate("C06"), ruleMarshalRoute},
+	})
+	register(PropSpec{
+		ID:    "C07",
+		Title: "No unresolved $required or stray directive ever reaches the output",
+		Rules: []func(*Prog, *Result){ruleOutputGate("C07"), ruleValidate("C07"), ruleMarshalRoute},
+	})
+	register(PropSpec{
+		ID:    "C11",
+		Title: "$output selects exactly the marked subtrees and hides exactly the excluded ones",
+		Rules: []func(*Prog, *Result){ruleC11Select, ruleC11Hide, ruleOutputGate("C11")},
+	})
+	register(PropSpec{
 		ID:    "C09",
 		Title: "Evaluation is deterministic",
 		Rules: []func(*Prog, *Result){ruleMapRanges, ruleSortedMap, ruleGlobals, ruleNondetSources},
